@@ -1,15 +1,17 @@
 /-
 `Instruction<fmt>.get_raw` as translated from the Python source by gen/py2lean.py (AgVerif.Gen.PyInsnRaw,
-attribute-reading mode: the struct pack is not interpreted, `get_raw_<fmt>` returns the argument tuple)
-agrees with the hand-written model `AgVerif.Insn.packArgs` on every object the constructor builds
-(`post f vs` for values `vs` in the range of `struct.unpack`), and packs with the struct string that
-gen/opcodes.py reads for the model (`Opcodes.packFmt`).
+attribute-reading mode: attributes are looked up by name in the list the translated constructor returns,
+the struct pack is not interpreted, `get_raw_<fmt>` returns the argument tuple) agrees with the
+hand-written model `AgVerif.Insn.packArgs` on every object the constructor builds (`post f vs` for
+values `vs` in the range of `struct.unpack`), and packs with the struct string that gen/opcodes.py reads
+for the model (`Opcodes.packFmt`).  Constructor and `get_raw` are composed as generated: no attribute
+name or position is supplied by hand.
 -/
 import AgVerif.Gen.PyInsnRaw
 import AgVerif.Proof.PyInsn
 set_option linter.unusedSimpArgs false
 namespace AgVerif.PyInsn
-open AgVerif.Insn AgVerif.Py AgVerif.Gen AgVerif.Gen.PyInsnRaw
+open AgVerif.Insn AgVerif.Py AgVerif.Gen AgVerif.Gen.PyInsn AgVerif.Gen.PyInsnRaw
 
 theorem and_low_ones (p lo k : Nat) (hp : p % 2 ^ k = 2 ^ k - 1) (hlo : lo < 2 ^ k) : p &&& lo = lo := by
   have h1 : lo &&& (2 ^ k - 1) = lo := by
@@ -58,387 +60,413 @@ theorem bor_add_256 (x lo : Int) (hx : x % 256 = 0) (h1 : 0 ≤ lo) (h2 : lo < 2
 theorem bor_add_4096 (x lo : Int) (hx : x % 4096 = 0) (h1 : 0 ≤ lo) (h2 : lo < 4096) : bor x lo = x + lo :=
   bor_add x lo 12 hx h1 h2
 
-/-- on every object the model's constructor builds, the translated `get_raw` passes the model's tuple -/
-def RawAgrees (m : Except Err Insn) (g : Insn → Option (List Int)) : Prop :=
+/-- whenever the model's constructor builds an object `x`, the translated constructor returns an attribute
+    list `fl`, and the translated method `g` applied to `fl` returns what the model's observer `o` returns on `x` -/
+def Agrees2 {α : Type} (m : Except Err Insn) (flo : Option (List (String × Int)))
+    (g : List (String × Int) → Option α) (o : Insn → Option α) : Prop :=
   match m with
-  | .ok x => g x = packArgs x
+  | .ok x => ∃ fl, flo = some fl ∧ g fl = o x
   | .error _ => True
 
-macro "raw_close " d:ident : tactic => `(tactic|
-  (simp only [RawAgrees, post, m0, m1, m2, m3, m4, m5, m7, m8]
-   simp (disch := omega) [packArgs, $d:ident, m0, m1, m2, m3, m4, m5, m7, m8, shl_eq,
-     bor_add_16, bor_add_256, bor_add_4096, band_FF, band_0F, shr_eq]
-   try omega))
-
-/-- `Instruction35c.get_raw` as translated from the source passes to `pack` the tuple the model's `packArgs` gives,
-    on every object the constructor builds. -/
+/-- `Instruction35c.get_raw` as translated from the source, applied to the attributes the translated constructor
+    sets, passes to `pack` the tuple the model's `packArgs` gives, on every object the constructor builds. -/
 theorem raw_35c_eq (vs : List Int) (hr : InRange .f35c vs) :
-    RawAgrees (post .f35c vs) (fun x => match x.v with | [w0, w1, w2, w3, w4, w5, w6] => get_raw_35c w0 w1 w2 w3 w4 w5 w6 (x.op : Int) | _ => none) := by
+    Agrees2 (post .f35c vs) (init_35c vs) get_raw_35c (fun x => packArgs x) := by
   simp only [InRange, Opcodes.unpackFmt] at hr
   match vs, hr with
   | [v0, v1, v2], hr =>
     simp only [InRangeL, SC.inRange, Bool.and_eq_true, decide_eq_true_eq] at hr
-    raw_close get_raw_35c
+    simp (disch := omega) [Agrees2, post, init_35c, get_raw_35c, packArgs, refOff, refKind, literals, m0, m1, m2, m3, m4, m5, m7, m8, List.lookup, band_FF, band_0F, shl_eq, shr_eq, bor_add_16, bor_add_256, bor_add_4096]
+    try omega
 
-/-- `Instruction10x.get_raw` as translated from the source passes to `pack` the tuple the model's `packArgs` gives,
-    on every object the constructor builds. -/
+/-- `Instruction10x.get_raw` as translated from the source, applied to the attributes the translated constructor
+    sets, passes to `pack` the tuple the model's `packArgs` gives, on every object the constructor builds. -/
 theorem raw_10x_eq (vs : List Int) (hr : InRange .f10x vs) :
-    RawAgrees (post .f10x vs) (fun x => match x.v with | [] => get_raw_10x (x.op : Int) | _ => none) := by
+    Agrees2 (post .f10x vs) (init_10x vs) get_raw_10x (fun x => packArgs x) := by
   simp only [InRange, Opcodes.unpackFmt] at hr
   match vs, hr with
   | [v0, v1], hr =>
     simp only [InRangeL, SC.inRange, Bool.and_eq_true, decide_eq_true_eq] at hr
     by_cases hp : v1 = 0 <;>
-      simp (disch := omega) [RawAgrees, post, m0, m1, m2, m3, m4, m5, m7, m8, hp, packArgs, get_raw_10x, shl_eq,
-        bor_add_16, bor_add_256, bor_add_4096] <;> try omega
+      simp (disch := omega) [Agrees2, post, init_10x, get_raw_10x, hp, packArgs, refOff, refKind, literals, m0, m1, m2, m3, m4, m5, m7, m8, List.lookup, band_FF, band_0F, shl_eq, shr_eq, bor_add_16, bor_add_256, bor_add_4096] <;> try omega
 
-/-- `Instruction21h.get_raw` as translated from the source passes to `pack` the tuple the model's `packArgs` gives,
-    on every object the constructor builds. -/
+/-- `Instruction21h.get_raw` as translated from the source, applied to the attributes the translated constructor
+    sets, passes to `pack` the tuple the model's `packArgs` gives, on every object the constructor builds. -/
 theorem raw_21h_eq (vs : List Int) (hr : InRange .f21h vs) :
-    RawAgrees (post .f21h vs) (fun x => match x.v with | [w0, w1, w2] => get_raw_21h w0 (x.op : Int) w1 | _ => none) := by
+    Agrees2 (post .f21h vs) (init_21h vs) get_raw_21h (fun x => packArgs x) := by
   simp only [InRange, Opcodes.unpackFmt] at hr
   match vs, hr with
   | [v0, v1, v2], hr =>
     simp only [InRangeL, SC.inRange, Bool.and_eq_true, decide_eq_true_eq] at hr
-    raw_close get_raw_21h
+    by_cases h21 : v0 = 21 <;> by_cases h25 : v0 = 25 <;>
+      simp (disch := omega) [Agrees2, post, init_21h, get_raw_21h, h21, h25, packArgs, refOff, refKind, literals, m0, m1, m2, m3, m4, m5, m7, m8, List.lookup, band_FF, band_0F, shl_eq, shr_eq, bor_add_16, bor_add_256, bor_add_4096] <;> try omega
 
-/-- `Instruction11n.get_raw` as translated from the source passes to `pack` the tuple the model's `packArgs` gives,
-    on every object the constructor builds. -/
+/-- `Instruction11n.get_raw` as translated from the source, applied to the attributes the translated constructor
+    sets, passes to `pack` the tuple the model's `packArgs` gives, on every object the constructor builds. -/
 theorem raw_11n_eq (vs : List Int) (hr : InRange .f11n vs) :
-    RawAgrees (post .f11n vs) (fun x => match x.v with | [w0, w1] => get_raw_11n w0 w1 (x.op : Int) | _ => none) := by
+    Agrees2 (post .f11n vs) (init_11n vs) get_raw_11n (fun x => packArgs x) := by
   simp only [InRange, Opcodes.unpackFmt] at hr
   match vs, hr with
   | [v0, v1], hr =>
     simp only [InRangeL, SC.inRange, Bool.and_eq_true, decide_eq_true_eq] at hr
-    raw_close get_raw_11n
+    simp (disch := omega) [Agrees2, post, init_11n, get_raw_11n, packArgs, refOff, refKind, literals, m0, m1, m2, m3, m4, m5, m7, m8, List.lookup, band_FF, band_0F, shl_eq, shr_eq, bor_add_16, bor_add_256, bor_add_4096]
+    try omega
 
-/-- `Instruction21c.get_raw` as translated from the source passes to `pack` the tuple the model's `packArgs` gives,
-    on every object the constructor builds. -/
+/-- `Instruction21c.get_raw` as translated from the source, applied to the attributes the translated constructor
+    sets, passes to `pack` the tuple the model's `packArgs` gives, on every object the constructor builds. -/
 theorem raw_21c_eq (vs : List Int) (hr : InRange .f21c vs) :
-    RawAgrees (post .f21c vs) (fun x => match x.v with | [w0, w1] => get_raw_21c w0 w1 (x.op : Int) | _ => none) := by
+    Agrees2 (post .f21c vs) (init_21c vs) get_raw_21c (fun x => packArgs x) := by
   simp only [InRange, Opcodes.unpackFmt] at hr
   match vs, hr with
   | [v0, v1, v2], hr =>
     simp only [InRangeL, SC.inRange, Bool.and_eq_true, decide_eq_true_eq] at hr
-    raw_close get_raw_21c
+    simp (disch := omega) [Agrees2, post, init_21c, get_raw_21c, packArgs, refOff, refKind, literals, m0, m1, m2, m3, m4, m5, m7, m8, List.lookup, band_FF, band_0F, shl_eq, shr_eq, bor_add_16, bor_add_256, bor_add_4096]
+    try omega
 
-/-- `Instruction21s.get_raw` as translated from the source passes to `pack` the tuple the model's `packArgs` gives,
-    on every object the constructor builds. -/
+/-- `Instruction21s.get_raw` as translated from the source, applied to the attributes the translated constructor
+    sets, passes to `pack` the tuple the model's `packArgs` gives, on every object the constructor builds. -/
 theorem raw_21s_eq (vs : List Int) (hr : InRange .f21s vs) :
-    RawAgrees (post .f21s vs) (fun x => match x.v with | [w0, w1] => get_raw_21s w0 w1 (x.op : Int) | _ => none) := by
+    Agrees2 (post .f21s vs) (init_21s vs) get_raw_21s (fun x => packArgs x) := by
   simp only [InRange, Opcodes.unpackFmt] at hr
   match vs, hr with
   | [v0, v1, v2], hr =>
     simp only [InRangeL, SC.inRange, Bool.and_eq_true, decide_eq_true_eq] at hr
-    raw_close get_raw_21s
+    simp (disch := omega) [Agrees2, post, init_21s, get_raw_21s, packArgs, refOff, refKind, literals, m0, m1, m2, m3, m4, m5, m7, m8, List.lookup, band_FF, band_0F, shl_eq, shr_eq, bor_add_16, bor_add_256, bor_add_4096]
+    try omega
 
-/-- `Instruction22c.get_raw` as translated from the source passes to `pack` the tuple the model's `packArgs` gives,
-    on every object the constructor builds. -/
+/-- `Instruction22c.get_raw` as translated from the source, applied to the attributes the translated constructor
+    sets, passes to `pack` the tuple the model's `packArgs` gives, on every object the constructor builds. -/
 theorem raw_22c_eq (vs : List Int) (hr : InRange .f22c vs) :
-    RawAgrees (post .f22c vs) (fun x => match x.v with | [w0, w1, w2] => get_raw_22c w0 w1 w2 (x.op : Int) | _ => none) := by
+    Agrees2 (post .f22c vs) (init_22c vs) get_raw_22c (fun x => packArgs x) := by
   simp only [InRange, Opcodes.unpackFmt] at hr
   match vs, hr with
   | [v0, v1], hr =>
     simp only [InRangeL, SC.inRange, Bool.and_eq_true, decide_eq_true_eq] at hr
-    raw_close get_raw_22c
+    simp (disch := omega) [Agrees2, post, init_22c, get_raw_22c, packArgs, refOff, refKind, literals, m0, m1, m2, m3, m4, m5, m7, m8, List.lookup, band_FF, band_0F, shl_eq, shr_eq, bor_add_16, bor_add_256, bor_add_4096]
+    try omega
 
-/-- `Instruction22cs.get_raw` as translated from the source passes to `pack` the tuple the model's `packArgs` gives,
-    on every object the constructor builds. -/
+/-- `Instruction22cs.get_raw` as translated from the source, applied to the attributes the translated constructor
+    sets, passes to `pack` the tuple the model's `packArgs` gives, on every object the constructor builds. -/
 theorem raw_22cs_eq (vs : List Int) (hr : InRange .f22cs vs) :
-    RawAgrees (post .f22cs vs) (fun x => match x.v with | [w0, w1, w2] => get_raw_22cs w0 w1 w2 (x.op : Int) | _ => none) := by
+    Agrees2 (post .f22cs vs) (init_22cs vs) get_raw_22cs (fun x => packArgs x) := by
   simp only [InRange, Opcodes.unpackFmt] at hr
   match vs, hr with
   | [v0, v1], hr =>
     simp only [InRangeL, SC.inRange, Bool.and_eq_true, decide_eq_true_eq] at hr
-    raw_close get_raw_22cs
+    simp (disch := omega) [Agrees2, post, init_22cs, get_raw_22cs, packArgs, refOff, refKind, literals, m0, m1, m2, m3, m4, m5, m7, m8, List.lookup, band_FF, band_0F, shl_eq, shr_eq, bor_add_16, bor_add_256, bor_add_4096]
+    try omega
 
-/-- `Instruction31t.get_raw` as translated from the source passes to `pack` the tuple the model's `packArgs` gives,
-    on every object the constructor builds. -/
+/-- `Instruction31t.get_raw` as translated from the source, applied to the attributes the translated constructor
+    sets, passes to `pack` the tuple the model's `packArgs` gives, on every object the constructor builds. -/
 theorem raw_31t_eq (vs : List Int) (hr : InRange .f31t vs) :
-    RawAgrees (post .f31t vs) (fun x => match x.v with | [w0, w1] => get_raw_31t w0 w1 (x.op : Int) | _ => none) := by
+    Agrees2 (post .f31t vs) (init_31t vs) get_raw_31t (fun x => packArgs x) := by
   simp only [InRange, Opcodes.unpackFmt] at hr
   match vs, hr with
   | [v0, v1, v2], hr =>
     simp only [InRangeL, SC.inRange, Bool.and_eq_true, decide_eq_true_eq] at hr
-    raw_close get_raw_31t
+    simp (disch := omega) [Agrees2, post, init_31t, get_raw_31t, packArgs, refOff, refKind, literals, m0, m1, m2, m3, m4, m5, m7, m8, List.lookup, band_FF, band_0F, shl_eq, shr_eq, bor_add_16, bor_add_256, bor_add_4096]
+    try omega
 
-/-- `Instruction31c.get_raw` as translated from the source passes to `pack` the tuple the model's `packArgs` gives,
-    on every object the constructor builds. -/
+/-- `Instruction31c.get_raw` as translated from the source, applied to the attributes the translated constructor
+    sets, passes to `pack` the tuple the model's `packArgs` gives, on every object the constructor builds. -/
 theorem raw_31c_eq (vs : List Int) (hr : InRange .f31c vs) :
-    RawAgrees (post .f31c vs) (fun x => match x.v with | [w0, w1] => get_raw_31c w0 w1 (x.op : Int) | _ => none) := by
+    Agrees2 (post .f31c vs) (init_31c vs) get_raw_31c (fun x => packArgs x) := by
   simp only [InRange, Opcodes.unpackFmt] at hr
   match vs, hr with
   | [v0, v1, v2], hr =>
     simp only [InRangeL, SC.inRange, Bool.and_eq_true, decide_eq_true_eq] at hr
-    raw_close get_raw_31c
+    simp (disch := omega) [Agrees2, post, init_31c, get_raw_31c, packArgs, refOff, refKind, literals, m0, m1, m2, m3, m4, m5, m7, m8, List.lookup, band_FF, band_0F, shl_eq, shr_eq, bor_add_16, bor_add_256, bor_add_4096]
+    try omega
 
-/-- `Instruction12x.get_raw` as translated from the source passes to `pack` the tuple the model's `packArgs` gives,
-    on every object the constructor builds. -/
+/-- `Instruction12x.get_raw` as translated from the source, applied to the attributes the translated constructor
+    sets, passes to `pack` the tuple the model's `packArgs` gives, on every object the constructor builds. -/
 theorem raw_12x_eq (vs : List Int) (hr : InRange .f12x vs) :
-    RawAgrees (post .f12x vs) (fun x => match x.v with | [w0, w1] => get_raw_12x w0 w1 (x.op : Int) | _ => none) := by
+    Agrees2 (post .f12x vs) (init_12x vs) get_raw_12x (fun x => packArgs x) := by
   simp only [InRange, Opcodes.unpackFmt] at hr
   match vs, hr with
   | [v0], hr =>
     simp only [InRangeL, SC.inRange, Bool.and_eq_true, decide_eq_true_eq] at hr
-    raw_close get_raw_12x
+    simp (disch := omega) [Agrees2, post, init_12x, get_raw_12x, packArgs, refOff, refKind, literals, m0, m1, m2, m3, m4, m5, m7, m8, List.lookup, band_FF, band_0F, shl_eq, shr_eq, bor_add_16, bor_add_256, bor_add_4096]
+    try omega
 
-/-- `Instruction11x.get_raw` as translated from the source passes to `pack` the tuple the model's `packArgs` gives,
-    on every object the constructor builds. -/
+/-- `Instruction11x.get_raw` as translated from the source, applied to the attributes the translated constructor
+    sets, passes to `pack` the tuple the model's `packArgs` gives, on every object the constructor builds. -/
 theorem raw_11x_eq (vs : List Int) (hr : InRange .f11x vs) :
-    RawAgrees (post .f11x vs) (fun x => match x.v with | [w0] => get_raw_11x w0 (x.op : Int) | _ => none) := by
+    Agrees2 (post .f11x vs) (init_11x vs) get_raw_11x (fun x => packArgs x) := by
   simp only [InRange, Opcodes.unpackFmt] at hr
   match vs, hr with
   | [v0, v1], hr =>
     simp only [InRangeL, SC.inRange, Bool.and_eq_true, decide_eq_true_eq] at hr
-    raw_close get_raw_11x
+    simp (disch := omega) [Agrees2, post, init_11x, get_raw_11x, packArgs, refOff, refKind, literals, m0, m1, m2, m3, m4, m5, m7, m8, List.lookup, band_FF, band_0F, shl_eq, shr_eq, bor_add_16, bor_add_256, bor_add_4096]
+    try omega
 
-/-- `Instruction51l.get_raw` as translated from the source passes to `pack` the tuple the model's `packArgs` gives,
-    on every object the constructor builds. -/
+/-- `Instruction51l.get_raw` as translated from the source, applied to the attributes the translated constructor
+    sets, passes to `pack` the tuple the model's `packArgs` gives, on every object the constructor builds. -/
 theorem raw_51l_eq (vs : List Int) (hr : InRange .f51l vs) :
-    RawAgrees (post .f51l vs) (fun x => match x.v with | [w0, w1] => get_raw_51l w0 w1 (x.op : Int) | _ => none) := by
+    Agrees2 (post .f51l vs) (init_51l vs) get_raw_51l (fun x => packArgs x) := by
   simp only [InRange, Opcodes.unpackFmt] at hr
   match vs, hr with
   | [v0, v1, v2], hr =>
     simp only [InRangeL, SC.inRange, Bool.and_eq_true, decide_eq_true_eq] at hr
-    raw_close get_raw_51l
+    simp (disch := omega) [Agrees2, post, init_51l, get_raw_51l, packArgs, refOff, refKind, literals, m0, m1, m2, m3, m4, m5, m7, m8, List.lookup, band_FF, band_0F, shl_eq, shr_eq, bor_add_16, bor_add_256, bor_add_4096]
+    try omega
 
-/-- `Instruction31i.get_raw` as translated from the source passes to `pack` the tuple the model's `packArgs` gives,
-    on every object the constructor builds. -/
+/-- `Instruction31i.get_raw` as translated from the source, applied to the attributes the translated constructor
+    sets, passes to `pack` the tuple the model's `packArgs` gives, on every object the constructor builds. -/
 theorem raw_31i_eq (vs : List Int) (hr : InRange .f31i vs) :
-    RawAgrees (post .f31i vs) (fun x => match x.v with | [w0, w1] => get_raw_31i w0 w1 (x.op : Int) | _ => none) := by
+    Agrees2 (post .f31i vs) (init_31i vs) get_raw_31i (fun x => packArgs x) := by
   simp only [InRange, Opcodes.unpackFmt] at hr
   match vs, hr with
   | [v0, v1, v2], hr =>
     simp only [InRangeL, SC.inRange, Bool.and_eq_true, decide_eq_true_eq] at hr
-    raw_close get_raw_31i
+    simp (disch := omega) [Agrees2, post, init_31i, get_raw_31i, packArgs, refOff, refKind, literals, m0, m1, m2, m3, m4, m5, m7, m8, List.lookup, band_FF, band_0F, shl_eq, shr_eq, bor_add_16, bor_add_256, bor_add_4096]
+    try omega
 
-/-- `Instruction22x.get_raw` as translated from the source passes to `pack` the tuple the model's `packArgs` gives,
-    on every object the constructor builds. -/
+/-- `Instruction22x.get_raw` as translated from the source, applied to the attributes the translated constructor
+    sets, passes to `pack` the tuple the model's `packArgs` gives, on every object the constructor builds. -/
 theorem raw_22x_eq (vs : List Int) (hr : InRange .f22x vs) :
-    RawAgrees (post .f22x vs) (fun x => match x.v with | [w0, w1] => get_raw_22x w0 w1 (x.op : Int) | _ => none) := by
+    Agrees2 (post .f22x vs) (init_22x vs) get_raw_22x (fun x => packArgs x) := by
   simp only [InRange, Opcodes.unpackFmt] at hr
   match vs, hr with
   | [v0, v1, v2], hr =>
     simp only [InRangeL, SC.inRange, Bool.and_eq_true, decide_eq_true_eq] at hr
-    raw_close get_raw_22x
+    simp (disch := omega) [Agrees2, post, init_22x, get_raw_22x, packArgs, refOff, refKind, literals, m0, m1, m2, m3, m4, m5, m7, m8, List.lookup, band_FF, band_0F, shl_eq, shr_eq, bor_add_16, bor_add_256, bor_add_4096]
+    try omega
 
-/-- `Instruction23x.get_raw` as translated from the source passes to `pack` the tuple the model's `packArgs` gives,
-    on every object the constructor builds. -/
+/-- `Instruction23x.get_raw` as translated from the source, applied to the attributes the translated constructor
+    sets, passes to `pack` the tuple the model's `packArgs` gives, on every object the constructor builds. -/
 theorem raw_23x_eq (vs : List Int) (hr : InRange .f23x vs) :
-    RawAgrees (post .f23x vs) (fun x => match x.v with | [w0, w1, w2] => get_raw_23x w0 w1 w2 (x.op : Int) | _ => none) := by
+    Agrees2 (post .f23x vs) (init_23x vs) get_raw_23x (fun x => packArgs x) := by
   simp only [InRange, Opcodes.unpackFmt] at hr
   match vs, hr with
   | [v0, v1, v2, v3], hr =>
     simp only [InRangeL, SC.inRange, Bool.and_eq_true, decide_eq_true_eq] at hr
-    raw_close get_raw_23x
+    simp (disch := omega) [Agrees2, post, init_23x, get_raw_23x, packArgs, refOff, refKind, literals, m0, m1, m2, m3, m4, m5, m7, m8, List.lookup, band_FF, band_0F, shl_eq, shr_eq, bor_add_16, bor_add_256, bor_add_4096]
+    try omega
 
-/-- `Instruction20t.get_raw` as translated from the source passes to `pack` the tuple the model's `packArgs` gives,
-    on every object the constructor builds. -/
+/-- `Instruction20t.get_raw` as translated from the source, applied to the attributes the translated constructor
+    sets, passes to `pack` the tuple the model's `packArgs` gives, on every object the constructor builds. -/
 theorem raw_20t_eq (vs : List Int) (hr : InRange .f20t vs) :
-    RawAgrees (post .f20t vs) (fun x => match x.v with | [w0] => get_raw_20t w0 (x.op : Int) | _ => none) := by
+    Agrees2 (post .f20t vs) (init_20t vs) get_raw_20t (fun x => packArgs x) := by
   simp only [InRange, Opcodes.unpackFmt] at hr
   match vs, hr with
   | [v0, v1, v2], hr =>
     simp only [InRangeL, SC.inRange, Bool.and_eq_true, decide_eq_true_eq] at hr
     by_cases hp : v1 = 0 <;>
-      simp (disch := omega) [RawAgrees, post, m0, m1, m2, m3, m4, m5, m7, m8, hp, packArgs, get_raw_20t, shl_eq,
-        bor_add_16, bor_add_256, bor_add_4096] <;> try omega
+      simp (disch := omega) [Agrees2, post, init_20t, get_raw_20t, hp, packArgs, refOff, refKind, literals, m0, m1, m2, m3, m4, m5, m7, m8, List.lookup, band_FF, band_0F, shl_eq, shr_eq, bor_add_16, bor_add_256, bor_add_4096] <;> try omega
 
-/-- `Instruction21t.get_raw` as translated from the source passes to `pack` the tuple the model's `packArgs` gives,
-    on every object the constructor builds. -/
+/-- `Instruction21t.get_raw` as translated from the source, applied to the attributes the translated constructor
+    sets, passes to `pack` the tuple the model's `packArgs` gives, on every object the constructor builds. -/
 theorem raw_21t_eq (vs : List Int) (hr : InRange .f21t vs) :
-    RawAgrees (post .f21t vs) (fun x => match x.v with | [w0, w1] => get_raw_21t w0 w1 (x.op : Int) | _ => none) := by
+    Agrees2 (post .f21t vs) (init_21t vs) get_raw_21t (fun x => packArgs x) := by
   simp only [InRange, Opcodes.unpackFmt] at hr
   match vs, hr with
   | [v0, v1, v2], hr =>
     simp only [InRangeL, SC.inRange, Bool.and_eq_true, decide_eq_true_eq] at hr
-    raw_close get_raw_21t
+    simp (disch := omega) [Agrees2, post, init_21t, get_raw_21t, packArgs, refOff, refKind, literals, m0, m1, m2, m3, m4, m5, m7, m8, List.lookup, band_FF, band_0F, shl_eq, shr_eq, bor_add_16, bor_add_256, bor_add_4096]
+    try omega
 
-/-- `Instruction10t.get_raw` as translated from the source passes to `pack` the tuple the model's `packArgs` gives,
-    on every object the constructor builds. -/
+/-- `Instruction10t.get_raw` as translated from the source, applied to the attributes the translated constructor
+    sets, passes to `pack` the tuple the model's `packArgs` gives, on every object the constructor builds. -/
 theorem raw_10t_eq (vs : List Int) (hr : InRange .f10t vs) :
-    RawAgrees (post .f10t vs) (fun x => match x.v with | [w0] => get_raw_10t w0 (x.op : Int) | _ => none) := by
+    Agrees2 (post .f10t vs) (init_10t vs) get_raw_10t (fun x => packArgs x) := by
   simp only [InRange, Opcodes.unpackFmt] at hr
   match vs, hr with
   | [v0, v1], hr =>
     simp only [InRangeL, SC.inRange, Bool.and_eq_true, decide_eq_true_eq] at hr
-    raw_close get_raw_10t
+    simp (disch := omega) [Agrees2, post, init_10t, get_raw_10t, packArgs, refOff, refKind, literals, m0, m1, m2, m3, m4, m5, m7, m8, List.lookup, band_FF, band_0F, shl_eq, shr_eq, bor_add_16, bor_add_256, bor_add_4096]
+    try omega
 
-/-- `Instruction22t.get_raw` as translated from the source passes to `pack` the tuple the model's `packArgs` gives,
-    on every object the constructor builds. -/
+/-- `Instruction22t.get_raw` as translated from the source, applied to the attributes the translated constructor
+    sets, passes to `pack` the tuple the model's `packArgs` gives, on every object the constructor builds. -/
 theorem raw_22t_eq (vs : List Int) (hr : InRange .f22t vs) :
-    RawAgrees (post .f22t vs) (fun x => match x.v with | [w0, w1, w2] => get_raw_22t w0 w1 w2 (x.op : Int) | _ => none) := by
+    Agrees2 (post .f22t vs) (init_22t vs) get_raw_22t (fun x => packArgs x) := by
   simp only [InRange, Opcodes.unpackFmt] at hr
   match vs, hr with
   | [v0, v1], hr =>
     simp only [InRangeL, SC.inRange, Bool.and_eq_true, decide_eq_true_eq] at hr
-    raw_close get_raw_22t
+    simp (disch := omega) [Agrees2, post, init_22t, get_raw_22t, packArgs, refOff, refKind, literals, m0, m1, m2, m3, m4, m5, m7, m8, List.lookup, band_FF, band_0F, shl_eq, shr_eq, bor_add_16, bor_add_256, bor_add_4096]
+    try omega
 
-/-- `Instruction22s.get_raw` as translated from the source passes to `pack` the tuple the model's `packArgs` gives,
-    on every object the constructor builds. -/
+/-- `Instruction22s.get_raw` as translated from the source, applied to the attributes the translated constructor
+    sets, passes to `pack` the tuple the model's `packArgs` gives, on every object the constructor builds. -/
 theorem raw_22s_eq (vs : List Int) (hr : InRange .f22s vs) :
-    RawAgrees (post .f22s vs) (fun x => match x.v with | [w0, w1, w2] => get_raw_22s w0 w1 w2 (x.op : Int) | _ => none) := by
+    Agrees2 (post .f22s vs) (init_22s vs) get_raw_22s (fun x => packArgs x) := by
   simp only [InRange, Opcodes.unpackFmt] at hr
   match vs, hr with
   | [v0, v1], hr =>
     simp only [InRangeL, SC.inRange, Bool.and_eq_true, decide_eq_true_eq] at hr
-    raw_close get_raw_22s
+    simp (disch := omega) [Agrees2, post, init_22s, get_raw_22s, packArgs, refOff, refKind, literals, m0, m1, m2, m3, m4, m5, m7, m8, List.lookup, band_FF, band_0F, shl_eq, shr_eq, bor_add_16, bor_add_256, bor_add_4096]
+    try omega
 
-/-- `Instruction22b.get_raw` as translated from the source passes to `pack` the tuple the model's `packArgs` gives,
-    on every object the constructor builds. -/
+/-- `Instruction22b.get_raw` as translated from the source, applied to the attributes the translated constructor
+    sets, passes to `pack` the tuple the model's `packArgs` gives, on every object the constructor builds. -/
 theorem raw_22b_eq (vs : List Int) (hr : InRange .f22b vs) :
-    RawAgrees (post .f22b vs) (fun x => match x.v with | [w0, w1, w2] => get_raw_22b w0 w1 w2 (x.op : Int) | _ => none) := by
+    Agrees2 (post .f22b vs) (init_22b vs) get_raw_22b (fun x => packArgs x) := by
   simp only [InRange, Opcodes.unpackFmt] at hr
   match vs, hr with
   | [v0, v1, v2, v3], hr =>
     simp only [InRangeL, SC.inRange, Bool.and_eq_true, decide_eq_true_eq] at hr
-    raw_close get_raw_22b
+    simp (disch := omega) [Agrees2, post, init_22b, get_raw_22b, packArgs, refOff, refKind, literals, m0, m1, m2, m3, m4, m5, m7, m8, List.lookup, band_FF, band_0F, shl_eq, shr_eq, bor_add_16, bor_add_256, bor_add_4096]
+    try omega
 
-/-- `Instruction30t.get_raw` as translated from the source passes to `pack` the tuple the model's `packArgs` gives,
-    on every object the constructor builds. -/
+/-- `Instruction30t.get_raw` as translated from the source, applied to the attributes the translated constructor
+    sets, passes to `pack` the tuple the model's `packArgs` gives, on every object the constructor builds. -/
 theorem raw_30t_eq (vs : List Int) (hr : InRange .f30t vs) :
-    RawAgrees (post .f30t vs) (fun x => match x.v with | [w0] => get_raw_30t w0 (x.op : Int) | _ => none) := by
+    Agrees2 (post .f30t vs) (init_30t vs) get_raw_30t (fun x => packArgs x) := by
   simp only [InRange, Opcodes.unpackFmt] at hr
   match vs, hr with
   | [v0, v1, v2], hr =>
     simp only [InRangeL, SC.inRange, Bool.and_eq_true, decide_eq_true_eq] at hr
     by_cases hp : v1 = 0 <;>
-      simp (disch := omega) [RawAgrees, post, m0, m1, m2, m3, m4, m5, m7, m8, hp, packArgs, get_raw_30t, shl_eq,
-        bor_add_16, bor_add_256, bor_add_4096] <;> try omega
+      simp (disch := omega) [Agrees2, post, init_30t, get_raw_30t, hp, packArgs, refOff, refKind, literals, m0, m1, m2, m3, m4, m5, m7, m8, List.lookup, band_FF, band_0F, shl_eq, shr_eq, bor_add_16, bor_add_256, bor_add_4096] <;> try omega
 
-/-- `Instruction3rc.get_raw` as translated from the source passes to `pack` the tuple the model's `packArgs` gives,
-    on every object the constructor builds. -/
+/-- `Instruction3rc.get_raw` as translated from the source, applied to the attributes the translated constructor
+    sets, passes to `pack` the tuple the model's `packArgs` gives, on every object the constructor builds. -/
 theorem raw_3rc_eq (vs : List Int) (hr : InRange .f3rc vs) :
-    RawAgrees (post .f3rc vs) (fun x => match x.v with | [w0, w1, w2] => get_raw_3rc w0 w1 w2 (x.op : Int) | _ => none) := by
+    Agrees2 (post .f3rc vs) (init_3rc vs) get_raw_3rc (fun x => packArgs x) := by
   simp only [InRange, Opcodes.unpackFmt] at hr
   match vs, hr with
   | [v0, v1, v2, v3], hr =>
     simp only [InRangeL, SC.inRange, Bool.and_eq_true, decide_eq_true_eq] at hr
-    raw_close get_raw_3rc
+    simp (disch := omega) [Agrees2, post, init_3rc, get_raw_3rc, packArgs, refOff, refKind, literals, m0, m1, m2, m3, m4, m5, m7, m8, List.lookup, band_FF, band_0F, shl_eq, shr_eq, bor_add_16, bor_add_256, bor_add_4096]
+    try omega
 
-/-- `Instruction32x.get_raw` as translated from the source passes to `pack` the tuple the model's `packArgs` gives,
-    on every object the constructor builds. -/
+/-- `Instruction32x.get_raw` as translated from the source, applied to the attributes the translated constructor
+    sets, passes to `pack` the tuple the model's `packArgs` gives, on every object the constructor builds. -/
 theorem raw_32x_eq (vs : List Int) (hr : InRange .f32x vs) :
-    RawAgrees (post .f32x vs) (fun x => match x.v with | [w0, w1] => get_raw_32x w0 w1 (x.op : Int) | _ => none) := by
+    Agrees2 (post .f32x vs) (init_32x vs) get_raw_32x (fun x => packArgs x) := by
   simp only [InRange, Opcodes.unpackFmt] at hr
   match vs, hr with
   | [v0, v1, v2, v3], hr =>
     simp only [InRangeL, SC.inRange, Bool.and_eq_true, decide_eq_true_eq] at hr
     by_cases hp : v1 = 0 <;>
-      simp (disch := omega) [RawAgrees, post, m0, m1, m2, m3, m4, m5, m7, m8, hp, packArgs, get_raw_32x, shl_eq,
-        bor_add_16, bor_add_256, bor_add_4096] <;> try omega
+      simp (disch := omega) [Agrees2, post, init_32x, get_raw_32x, hp, packArgs, refOff, refKind, literals, m0, m1, m2, m3, m4, m5, m7, m8, List.lookup, band_FF, band_0F, shl_eq, shr_eq, bor_add_16, bor_add_256, bor_add_4096] <;> try omega
 
-/-- `Instruction20bc.get_raw` as translated from the source passes to `pack` the tuple the model's `packArgs` gives,
-    on every object the constructor builds. -/
+/-- `Instruction20bc.get_raw` as translated from the source, applied to the attributes the translated constructor
+    sets, passes to `pack` the tuple the model's `packArgs` gives, on every object the constructor builds. -/
 theorem raw_20bc_eq (vs : List Int) (hr : InRange .f20bc vs) :
-    RawAgrees (post .f20bc vs) (fun x => match x.v with | [w0, w1] => get_raw_20bc w0 w1 (x.op : Int) | _ => none) := by
+    Agrees2 (post .f20bc vs) (init_20bc vs) get_raw_20bc (fun x => packArgs x) := by
   simp only [InRange, Opcodes.unpackFmt] at hr
   match vs, hr with
   | [v0, v1, v2], hr =>
     simp only [InRangeL, SC.inRange, Bool.and_eq_true, decide_eq_true_eq] at hr
-    raw_close get_raw_20bc
+    simp (disch := omega) [Agrees2, post, init_20bc, get_raw_20bc, packArgs, refOff, refKind, literals, m0, m1, m2, m3, m4, m5, m7, m8, List.lookup, band_FF, band_0F, shl_eq, shr_eq, bor_add_16, bor_add_256, bor_add_4096]
+    try omega
 
-/-- `Instruction35mi.get_raw` as translated from the source passes to `pack` the tuple the model's `packArgs` gives,
-    on every object the constructor builds. -/
+/-- `Instruction35mi.get_raw` as translated from the source, applied to the attributes the translated constructor
+    sets, passes to `pack` the tuple the model's `packArgs` gives, on every object the constructor builds. -/
 theorem raw_35mi_eq (vs : List Int) (hr : InRange .f35mi vs) :
-    RawAgrees (post .f35mi vs) (fun x => match x.v with | [w0, w1, w2, w3, w4, w5, w6] => get_raw_35mi w0 w1 w2 w3 w4 w5 w6 (x.op : Int) | _ => none) := by
+    Agrees2 (post .f35mi vs) (init_35mi vs) get_raw_35mi (fun x => packArgs x) := by
   simp only [InRange, Opcodes.unpackFmt] at hr
   match vs, hr with
   | [v0, v1, v2], hr =>
     simp only [InRangeL, SC.inRange, Bool.and_eq_true, decide_eq_true_eq] at hr
-    raw_close get_raw_35mi
+    simp (disch := omega) [Agrees2, post, init_35mi, get_raw_35mi, packArgs, refOff, refKind, literals, m0, m1, m2, m3, m4, m5, m7, m8, List.lookup, band_FF, band_0F, shl_eq, shr_eq, bor_add_16, bor_add_256, bor_add_4096]
+    try omega
 
-/-- `Instruction35ms.get_raw` as translated from the source passes to `pack` the tuple the model's `packArgs` gives,
-    on every object the constructor builds. -/
+/-- `Instruction35ms.get_raw` as translated from the source, applied to the attributes the translated constructor
+    sets, passes to `pack` the tuple the model's `packArgs` gives, on every object the constructor builds. -/
 theorem raw_35ms_eq (vs : List Int) (hr : InRange .f35ms vs) :
-    RawAgrees (post .f35ms vs) (fun x => match x.v with | [w0, w1, w2, w3, w4, w5, w6] => get_raw_35ms w0 w1 w2 w3 w4 w5 w6 (x.op : Int) | _ => none) := by
+    Agrees2 (post .f35ms vs) (init_35ms vs) get_raw_35ms (fun x => packArgs x) := by
   simp only [InRange, Opcodes.unpackFmt] at hr
   match vs, hr with
   | [v0, v1, v2], hr =>
     simp only [InRangeL, SC.inRange, Bool.and_eq_true, decide_eq_true_eq] at hr
-    raw_close get_raw_35ms
+    simp (disch := omega) [Agrees2, post, init_35ms, get_raw_35ms, packArgs, refOff, refKind, literals, m0, m1, m2, m3, m4, m5, m7, m8, List.lookup, band_FF, band_0F, shl_eq, shr_eq, bor_add_16, bor_add_256, bor_add_4096]
+    try omega
 
-/-- `Instruction3rmi.get_raw` as translated from the source passes to `pack` the tuple the model's `packArgs` gives,
-    on every object the constructor builds. -/
+/-- `Instruction3rmi.get_raw` as translated from the source, applied to the attributes the translated constructor
+    sets, passes to `pack` the tuple the model's `packArgs` gives, on every object the constructor builds. -/
 theorem raw_3rmi_eq (vs : List Int) (hr : InRange .f3rmi vs) :
-    RawAgrees (post .f3rmi vs) (fun x => match x.v with | [w0, w1, w2] => get_raw_3rmi w0 w1 w2 (x.op : Int) | _ => none) := by
+    Agrees2 (post .f3rmi vs) (init_3rmi vs) get_raw_3rmi (fun x => packArgs x) := by
   simp only [InRange, Opcodes.unpackFmt] at hr
   match vs, hr with
   | [v0, v1, v2, v3], hr =>
     simp only [InRangeL, SC.inRange, Bool.and_eq_true, decide_eq_true_eq] at hr
-    raw_close get_raw_3rmi
+    simp (disch := omega) [Agrees2, post, init_3rmi, get_raw_3rmi, packArgs, refOff, refKind, literals, m0, m1, m2, m3, m4, m5, m7, m8, List.lookup, band_FF, band_0F, shl_eq, shr_eq, bor_add_16, bor_add_256, bor_add_4096]
+    try omega
 
-/-- `Instruction3rms.get_raw` as translated from the source passes to `pack` the tuple the model's `packArgs` gives,
-    on every object the constructor builds. -/
+/-- `Instruction3rms.get_raw` as translated from the source, applied to the attributes the translated constructor
+    sets, passes to `pack` the tuple the model's `packArgs` gives, on every object the constructor builds. -/
 theorem raw_3rms_eq (vs : List Int) (hr : InRange .f3rms vs) :
-    RawAgrees (post .f3rms vs) (fun x => match x.v with | [w0, w1, w2] => get_raw_3rms w0 w1 w2 (x.op : Int) | _ => none) := by
+    Agrees2 (post .f3rms vs) (init_3rms vs) get_raw_3rms (fun x => packArgs x) := by
   simp only [InRange, Opcodes.unpackFmt] at hr
   match vs, hr with
   | [v0, v1, v2, v3], hr =>
     simp only [InRangeL, SC.inRange, Bool.and_eq_true, decide_eq_true_eq] at hr
-    raw_close get_raw_3rms
+    simp (disch := omega) [Agrees2, post, init_3rms, get_raw_3rms, packArgs, refOff, refKind, literals, m0, m1, m2, m3, m4, m5, m7, m8, List.lookup, band_FF, band_0F, shl_eq, shr_eq, bor_add_16, bor_add_256, bor_add_4096]
+    try omega
 
-/-- `Instruction41c.get_raw` as translated from the source passes to `pack` the tuple the model's `packArgs` gives,
-    on every object the constructor builds. -/
+/-- `Instruction41c.get_raw` as translated from the source, applied to the attributes the translated constructor
+    sets, passes to `pack` the tuple the model's `packArgs` gives, on every object the constructor builds. -/
 theorem raw_41c_eq (vs : List Int) (hr : InRange .f41c vs) :
-    RawAgrees (post .f41c vs) (fun x => match x.v with | [w0, w1] => get_raw_41c w1 w0 (x.op : Int) | _ => none) := by
+    Agrees2 (post .f41c vs) (init_41c vs) get_raw_41c (fun x => packArgs x) := by
   simp only [InRange, Opcodes.unpackFmt] at hr
   match vs, hr with
   | [v0, v1, v2], hr =>
     simp only [InRangeL, SC.inRange, Bool.and_eq_true, decide_eq_true_eq] at hr
-    raw_close get_raw_41c
+    simp (disch := omega) [Agrees2, post, init_41c, get_raw_41c, packArgs, refOff, refKind, literals, m0, m1, m2, m3, m4, m5, m7, m8, List.lookup, band_FF, band_0F, shl_eq, shr_eq, bor_add_16, bor_add_256, bor_add_4096]
+    try omega
 
-/-- `Instruction40sc.get_raw` as translated from the source passes to `pack` the tuple the model's `packArgs` gives,
-    on every object the constructor builds. -/
+/-- `Instruction40sc.get_raw` as translated from the source, applied to the attributes the translated constructor
+    sets, passes to `pack` the tuple the model's `packArgs` gives, on every object the constructor builds. -/
 theorem raw_40sc_eq (vs : List Int) (hr : InRange .f40sc vs) :
-    RawAgrees (post .f40sc vs) (fun x => match x.v with | [w0, w1] => get_raw_40sc w1 w0 (x.op : Int) | _ => none) := by
+    Agrees2 (post .f40sc vs) (init_40sc vs) get_raw_40sc (fun x => packArgs x) := by
   simp only [InRange, Opcodes.unpackFmt] at hr
   match vs, hr with
   | [v0, v1, v2], hr =>
     simp only [InRangeL, SC.inRange, Bool.and_eq_true, decide_eq_true_eq] at hr
-    raw_close get_raw_40sc
+    simp (disch := omega) [Agrees2, post, init_40sc, get_raw_40sc, packArgs, refOff, refKind, literals, m0, m1, m2, m3, m4, m5, m7, m8, List.lookup, band_FF, band_0F, shl_eq, shr_eq, bor_add_16, bor_add_256, bor_add_4096]
+    try omega
 
-/-- `Instruction52c.get_raw` as translated from the source passes to `pack` the tuple the model's `packArgs` gives,
-    on every object the constructor builds. -/
+/-- `Instruction52c.get_raw` as translated from the source, applied to the attributes the translated constructor
+    sets, passes to `pack` the tuple the model's `packArgs` gives, on every object the constructor builds. -/
 theorem raw_52c_eq (vs : List Int) (hr : InRange .f52c vs) :
-    RawAgrees (post .f52c vs) (fun x => match x.v with | [w0, w1, w2] => get_raw_52c w1 w2 w0 (x.op : Int) | _ => none) := by
+    Agrees2 (post .f52c vs) (init_52c vs) get_raw_52c (fun x => packArgs x) := by
   simp only [InRange, Opcodes.unpackFmt] at hr
   match vs, hr with
   | [v0, v1, v2, v3], hr =>
     simp only [InRangeL, SC.inRange, Bool.and_eq_true, decide_eq_true_eq] at hr
-    raw_close get_raw_52c
+    simp (disch := omega) [Agrees2, post, init_52c, get_raw_52c, packArgs, refOff, refKind, literals, m0, m1, m2, m3, m4, m5, m7, m8, List.lookup, band_FF, band_0F, shl_eq, shr_eq, bor_add_16, bor_add_256, bor_add_4096]
+    try omega
 
-/-- `Instruction5rc.get_raw` as translated from the source passes to `pack` the tuple the model's `packArgs` gives,
-    on every object the constructor builds. -/
+/-- `Instruction5rc.get_raw` as translated from the source, applied to the attributes the translated constructor
+    sets, passes to `pack` the tuple the model's `packArgs` gives, on every object the constructor builds. -/
 theorem raw_5rc_eq (vs : List Int) (hr : InRange .f5rc vs) :
-    RawAgrees (post .f5rc vs) (fun x => match x.v with | [w0, w1, w2] => get_raw_5rc w1 w0 w2 (x.op : Int) | _ => none) := by
+    Agrees2 (post .f5rc vs) (init_5rc vs) get_raw_5rc (fun x => packArgs x) := by
   simp only [InRange, Opcodes.unpackFmt] at hr
   match vs, hr with
   | [v0, v1, v2, v3], hr =>
     simp only [InRangeL, SC.inRange, Bool.and_eq_true, decide_eq_true_eq] at hr
-    raw_close get_raw_5rc
+    simp (disch := omega) [Agrees2, post, init_5rc, get_raw_5rc, packArgs, refOff, refKind, literals, m0, m1, m2, m3, m4, m5, m7, m8, List.lookup, band_FF, band_0F, shl_eq, shr_eq, bor_add_16, bor_add_256, bor_add_4096]
+    try omega
 
-/-- `Instruction45cc.get_raw` as translated from the source passes to `pack` the tuple the model's `packArgs` gives,
-    on every object the constructor builds. -/
+/-- `Instruction45cc.get_raw` as translated from the source, applied to the attributes the translated constructor
+    sets, passes to `pack` the tuple the model's `packArgs` gives, on every object the constructor builds. -/
 theorem raw_45cc_eq (vs : List Int) (hr : InRange .f45cc vs) :
-    RawAgrees (post .f45cc vs) (fun x => match x.v with | [w0, w1, w2, w3, w4, w5, w6, w7] => get_raw_45cc w0 w1 w2 w3 w4 w5 w6 w7 (x.op : Int) | _ => none) := by
+    Agrees2 (post .f45cc vs) (init_45cc vs) get_raw_45cc (fun x => packArgs x) := by
   simp only [InRange, Opcodes.unpackFmt] at hr
   match vs, hr with
   | [v0, v1, v2, v3, v4], hr =>
     simp only [InRangeL, SC.inRange, Bool.and_eq_true, decide_eq_true_eq] at hr
+    have e1 : band v1 240 / 16 = v1 / 16 % 16 := by simpa [shr_eq] using band_F0_shr v1 hr.2.1.1
+    have e2 : band v3 240 / 16 = v3 / 16 % 16 := by simpa [shr_eq] using band_F0_shr v3 hr.2.2.2.1.1
+    have e3 : band v3 3840 / 256 = v3 / 256 % 16 := by simpa [shr_eq] using band_F00_shr v3 hr.2.2.2.1.1
+    have e4 : band v3 61440 / 4096 = v3 / 4096 % 16 := by simpa [shr_eq] using band_F000_shr v3 hr.2.2.2.1.1
     by_cases hp : 5 < v1 / 16 % 16 <;>
-      simp (disch := omega) [RawAgrees, post, m0, m1, m2, m3, m4, m5, m7, m8, hp, packArgs, get_raw_45cc, shl_eq,
-        bor_add_16, bor_add_256, bor_add_4096] <;> try omega
+      simp (disch := omega) [Agrees2, post, init_45cc, get_raw_45cc, hp, packArgs, refOff, refKind, literals, m0, m1, m2, m3, m4, m5, m7, m8, List.lookup, band_FF, band_0F, shl_eq, shr_eq, bor_add_16, bor_add_256, bor_add_4096, e1, e2, e3, e4] <;> try omega
 
-/-- `Instruction4rcc.get_raw` as translated from the source passes to `pack` the tuple the model's `packArgs` gives,
-    on every object the constructor builds. -/
+/-- `Instruction4rcc.get_raw` as translated from the source, applied to the attributes the translated constructor
+    sets, passes to `pack` the tuple the model's `packArgs` gives, on every object the constructor builds. -/
 theorem raw_4rcc_eq (vs : List Int) (hr : InRange .f4rcc vs) :
-    RawAgrees (post .f4rcc vs) (fun x => match x.v with | [w0, w1, w2, w3] => get_raw_4rcc w0 w1 w2 w3 (x.op : Int) | _ => none) := by
+    Agrees2 (post .f4rcc vs) (init_4rcc vs) get_raw_4rcc (fun x => packArgs x) := by
   simp only [InRange, Opcodes.unpackFmt] at hr
   match vs, hr with
   | [v0, v1, v2, v3, v4], hr =>
     simp only [InRangeL, SC.inRange, Bool.and_eq_true, decide_eq_true_eq] at hr
-    raw_close get_raw_4rcc
+    simp (disch := omega) [Agrees2, post, init_4rcc, get_raw_4rcc, packArgs, refOff, refKind, literals, m0, m1, m2, m3, m4, m5, m7, m8, List.lookup, band_FF, band_0F, shl_eq, shr_eq, bor_add_16, bor_add_256, bor_add_4096]
+    try omega
 
 /-! ### the struct string of every translated `get_raw` is the generated one -/
 
@@ -486,47 +514,48 @@ theorem pack_formats_agree :
 
 example : packTable.length = 36 := by decide
 
-/-- All 36 `get_raw` methods at once (for Props/C02.lean). -/
+/-- All 36 `get_raw` methods at once. -/
 theorem source_get_raw_agree :
-    (∀ vs, InRange .f35c vs → RawAgrees (post .f35c vs) (fun x => match x.v with | [w0, w1, w2, w3, w4, w5, w6] => get_raw_35c w0 w1 w2 w3 w4 w5 w6 (x.op : Int) | _ => none)) ∧
-    (∀ vs, InRange .f10x vs → RawAgrees (post .f10x vs) (fun x => match x.v with | [] => get_raw_10x (x.op : Int) | _ => none)) ∧
-    (∀ vs, InRange .f21h vs → RawAgrees (post .f21h vs) (fun x => match x.v with | [w0, w1, w2] => get_raw_21h w0 (x.op : Int) w1 | _ => none)) ∧
-    (∀ vs, InRange .f11n vs → RawAgrees (post .f11n vs) (fun x => match x.v with | [w0, w1] => get_raw_11n w0 w1 (x.op : Int) | _ => none)) ∧
-    (∀ vs, InRange .f21c vs → RawAgrees (post .f21c vs) (fun x => match x.v with | [w0, w1] => get_raw_21c w0 w1 (x.op : Int) | _ => none)) ∧
-    (∀ vs, InRange .f21s vs → RawAgrees (post .f21s vs) (fun x => match x.v with | [w0, w1] => get_raw_21s w0 w1 (x.op : Int) | _ => none)) ∧
-    (∀ vs, InRange .f22c vs → RawAgrees (post .f22c vs) (fun x => match x.v with | [w0, w1, w2] => get_raw_22c w0 w1 w2 (x.op : Int) | _ => none)) ∧
-    (∀ vs, InRange .f22cs vs → RawAgrees (post .f22cs vs) (fun x => match x.v with | [w0, w1, w2] => get_raw_22cs w0 w1 w2 (x.op : Int) | _ => none)) ∧
-    (∀ vs, InRange .f31t vs → RawAgrees (post .f31t vs) (fun x => match x.v with | [w0, w1] => get_raw_31t w0 w1 (x.op : Int) | _ => none)) ∧
-    (∀ vs, InRange .f31c vs → RawAgrees (post .f31c vs) (fun x => match x.v with | [w0, w1] => get_raw_31c w0 w1 (x.op : Int) | _ => none)) ∧
-    (∀ vs, InRange .f12x vs → RawAgrees (post .f12x vs) (fun x => match x.v with | [w0, w1] => get_raw_12x w0 w1 (x.op : Int) | _ => none)) ∧
-    (∀ vs, InRange .f11x vs → RawAgrees (post .f11x vs) (fun x => match x.v with | [w0] => get_raw_11x w0 (x.op : Int) | _ => none)) ∧
-    (∀ vs, InRange .f51l vs → RawAgrees (post .f51l vs) (fun x => match x.v with | [w0, w1] => get_raw_51l w0 w1 (x.op : Int) | _ => none)) ∧
-    (∀ vs, InRange .f31i vs → RawAgrees (post .f31i vs) (fun x => match x.v with | [w0, w1] => get_raw_31i w0 w1 (x.op : Int) | _ => none)) ∧
-    (∀ vs, InRange .f22x vs → RawAgrees (post .f22x vs) (fun x => match x.v with | [w0, w1] => get_raw_22x w0 w1 (x.op : Int) | _ => none)) ∧
-    (∀ vs, InRange .f23x vs → RawAgrees (post .f23x vs) (fun x => match x.v with | [w0, w1, w2] => get_raw_23x w0 w1 w2 (x.op : Int) | _ => none)) ∧
-    (∀ vs, InRange .f20t vs → RawAgrees (post .f20t vs) (fun x => match x.v with | [w0] => get_raw_20t w0 (x.op : Int) | _ => none)) ∧
-    (∀ vs, InRange .f21t vs → RawAgrees (post .f21t vs) (fun x => match x.v with | [w0, w1] => get_raw_21t w0 w1 (x.op : Int) | _ => none)) ∧
-    (∀ vs, InRange .f10t vs → RawAgrees (post .f10t vs) (fun x => match x.v with | [w0] => get_raw_10t w0 (x.op : Int) | _ => none)) ∧
-    (∀ vs, InRange .f22t vs → RawAgrees (post .f22t vs) (fun x => match x.v with | [w0, w1, w2] => get_raw_22t w0 w1 w2 (x.op : Int) | _ => none)) ∧
-    (∀ vs, InRange .f22s vs → RawAgrees (post .f22s vs) (fun x => match x.v with | [w0, w1, w2] => get_raw_22s w0 w1 w2 (x.op : Int) | _ => none)) ∧
-    (∀ vs, InRange .f22b vs → RawAgrees (post .f22b vs) (fun x => match x.v with | [w0, w1, w2] => get_raw_22b w0 w1 w2 (x.op : Int) | _ => none)) ∧
-    (∀ vs, InRange .f30t vs → RawAgrees (post .f30t vs) (fun x => match x.v with | [w0] => get_raw_30t w0 (x.op : Int) | _ => none)) ∧
-    (∀ vs, InRange .f3rc vs → RawAgrees (post .f3rc vs) (fun x => match x.v with | [w0, w1, w2] => get_raw_3rc w0 w1 w2 (x.op : Int) | _ => none)) ∧
-    (∀ vs, InRange .f32x vs → RawAgrees (post .f32x vs) (fun x => match x.v with | [w0, w1] => get_raw_32x w0 w1 (x.op : Int) | _ => none)) ∧
-    (∀ vs, InRange .f20bc vs → RawAgrees (post .f20bc vs) (fun x => match x.v with | [w0, w1] => get_raw_20bc w0 w1 (x.op : Int) | _ => none)) ∧
-    (∀ vs, InRange .f35mi vs → RawAgrees (post .f35mi vs) (fun x => match x.v with | [w0, w1, w2, w3, w4, w5, w6] => get_raw_35mi w0 w1 w2 w3 w4 w5 w6 (x.op : Int) | _ => none)) ∧
-    (∀ vs, InRange .f35ms vs → RawAgrees (post .f35ms vs) (fun x => match x.v with | [w0, w1, w2, w3, w4, w5, w6] => get_raw_35ms w0 w1 w2 w3 w4 w5 w6 (x.op : Int) | _ => none)) ∧
-    (∀ vs, InRange .f3rmi vs → RawAgrees (post .f3rmi vs) (fun x => match x.v with | [w0, w1, w2] => get_raw_3rmi w0 w1 w2 (x.op : Int) | _ => none)) ∧
-    (∀ vs, InRange .f3rms vs → RawAgrees (post .f3rms vs) (fun x => match x.v with | [w0, w1, w2] => get_raw_3rms w0 w1 w2 (x.op : Int) | _ => none)) ∧
-    (∀ vs, InRange .f41c vs → RawAgrees (post .f41c vs) (fun x => match x.v with | [w0, w1] => get_raw_41c w1 w0 (x.op : Int) | _ => none)) ∧
-    (∀ vs, InRange .f40sc vs → RawAgrees (post .f40sc vs) (fun x => match x.v with | [w0, w1] => get_raw_40sc w1 w0 (x.op : Int) | _ => none)) ∧
-    (∀ vs, InRange .f52c vs → RawAgrees (post .f52c vs) (fun x => match x.v with | [w0, w1, w2] => get_raw_52c w1 w2 w0 (x.op : Int) | _ => none)) ∧
-    (∀ vs, InRange .f5rc vs → RawAgrees (post .f5rc vs) (fun x => match x.v with | [w0, w1, w2] => get_raw_5rc w1 w0 w2 (x.op : Int) | _ => none)) ∧
-    (∀ vs, InRange .f45cc vs → RawAgrees (post .f45cc vs) (fun x => match x.v with | [w0, w1, w2, w3, w4, w5, w6, w7] => get_raw_45cc w0 w1 w2 w3 w4 w5 w6 w7 (x.op : Int) | _ => none)) ∧
-    (∀ vs, InRange .f4rcc vs → RawAgrees (post .f4rcc vs) (fun x => match x.v with | [w0, w1, w2, w3] => get_raw_4rcc w0 w1 w2 w3 (x.op : Int) | _ => none)) :=
+    (∀ vs, InRange .f35c vs → Agrees2 (post .f35c vs) (init_35c vs) get_raw_35c (fun x => packArgs x)) ∧
+    (∀ vs, InRange .f10x vs → Agrees2 (post .f10x vs) (init_10x vs) get_raw_10x (fun x => packArgs x)) ∧
+    (∀ vs, InRange .f21h vs → Agrees2 (post .f21h vs) (init_21h vs) get_raw_21h (fun x => packArgs x)) ∧
+    (∀ vs, InRange .f11n vs → Agrees2 (post .f11n vs) (init_11n vs) get_raw_11n (fun x => packArgs x)) ∧
+    (∀ vs, InRange .f21c vs → Agrees2 (post .f21c vs) (init_21c vs) get_raw_21c (fun x => packArgs x)) ∧
+    (∀ vs, InRange .f21s vs → Agrees2 (post .f21s vs) (init_21s vs) get_raw_21s (fun x => packArgs x)) ∧
+    (∀ vs, InRange .f22c vs → Agrees2 (post .f22c vs) (init_22c vs) get_raw_22c (fun x => packArgs x)) ∧
+    (∀ vs, InRange .f22cs vs → Agrees2 (post .f22cs vs) (init_22cs vs) get_raw_22cs (fun x => packArgs x)) ∧
+    (∀ vs, InRange .f31t vs → Agrees2 (post .f31t vs) (init_31t vs) get_raw_31t (fun x => packArgs x)) ∧
+    (∀ vs, InRange .f31c vs → Agrees2 (post .f31c vs) (init_31c vs) get_raw_31c (fun x => packArgs x)) ∧
+    (∀ vs, InRange .f12x vs → Agrees2 (post .f12x vs) (init_12x vs) get_raw_12x (fun x => packArgs x)) ∧
+    (∀ vs, InRange .f11x vs → Agrees2 (post .f11x vs) (init_11x vs) get_raw_11x (fun x => packArgs x)) ∧
+    (∀ vs, InRange .f51l vs → Agrees2 (post .f51l vs) (init_51l vs) get_raw_51l (fun x => packArgs x)) ∧
+    (∀ vs, InRange .f31i vs → Agrees2 (post .f31i vs) (init_31i vs) get_raw_31i (fun x => packArgs x)) ∧
+    (∀ vs, InRange .f22x vs → Agrees2 (post .f22x vs) (init_22x vs) get_raw_22x (fun x => packArgs x)) ∧
+    (∀ vs, InRange .f23x vs → Agrees2 (post .f23x vs) (init_23x vs) get_raw_23x (fun x => packArgs x)) ∧
+    (∀ vs, InRange .f20t vs → Agrees2 (post .f20t vs) (init_20t vs) get_raw_20t (fun x => packArgs x)) ∧
+    (∀ vs, InRange .f21t vs → Agrees2 (post .f21t vs) (init_21t vs) get_raw_21t (fun x => packArgs x)) ∧
+    (∀ vs, InRange .f10t vs → Agrees2 (post .f10t vs) (init_10t vs) get_raw_10t (fun x => packArgs x)) ∧
+    (∀ vs, InRange .f22t vs → Agrees2 (post .f22t vs) (init_22t vs) get_raw_22t (fun x => packArgs x)) ∧
+    (∀ vs, InRange .f22s vs → Agrees2 (post .f22s vs) (init_22s vs) get_raw_22s (fun x => packArgs x)) ∧
+    (∀ vs, InRange .f22b vs → Agrees2 (post .f22b vs) (init_22b vs) get_raw_22b (fun x => packArgs x)) ∧
+    (∀ vs, InRange .f30t vs → Agrees2 (post .f30t vs) (init_30t vs) get_raw_30t (fun x => packArgs x)) ∧
+    (∀ vs, InRange .f3rc vs → Agrees2 (post .f3rc vs) (init_3rc vs) get_raw_3rc (fun x => packArgs x)) ∧
+    (∀ vs, InRange .f32x vs → Agrees2 (post .f32x vs) (init_32x vs) get_raw_32x (fun x => packArgs x)) ∧
+    (∀ vs, InRange .f20bc vs → Agrees2 (post .f20bc vs) (init_20bc vs) get_raw_20bc (fun x => packArgs x)) ∧
+    (∀ vs, InRange .f35mi vs → Agrees2 (post .f35mi vs) (init_35mi vs) get_raw_35mi (fun x => packArgs x)) ∧
+    (∀ vs, InRange .f35ms vs → Agrees2 (post .f35ms vs) (init_35ms vs) get_raw_35ms (fun x => packArgs x)) ∧
+    (∀ vs, InRange .f3rmi vs → Agrees2 (post .f3rmi vs) (init_3rmi vs) get_raw_3rmi (fun x => packArgs x)) ∧
+    (∀ vs, InRange .f3rms vs → Agrees2 (post .f3rms vs) (init_3rms vs) get_raw_3rms (fun x => packArgs x)) ∧
+    (∀ vs, InRange .f41c vs → Agrees2 (post .f41c vs) (init_41c vs) get_raw_41c (fun x => packArgs x)) ∧
+    (∀ vs, InRange .f40sc vs → Agrees2 (post .f40sc vs) (init_40sc vs) get_raw_40sc (fun x => packArgs x)) ∧
+    (∀ vs, InRange .f52c vs → Agrees2 (post .f52c vs) (init_52c vs) get_raw_52c (fun x => packArgs x)) ∧
+    (∀ vs, InRange .f5rc vs → Agrees2 (post .f5rc vs) (init_5rc vs) get_raw_5rc (fun x => packArgs x)) ∧
+    (∀ vs, InRange .f45cc vs → Agrees2 (post .f45cc vs) (init_45cc vs) get_raw_45cc (fun x => packArgs x)) ∧
+    (∀ vs, InRange .f4rcc vs → Agrees2 (post .f4rcc vs) (init_4rcc vs) get_raw_4rcc (fun x => packArgs x)) :=
   ⟨raw_35c_eq, raw_10x_eq, raw_21h_eq, raw_11n_eq, raw_21c_eq, raw_21s_eq, raw_22c_eq, raw_22cs_eq, raw_31t_eq, raw_31c_eq, raw_12x_eq, raw_11x_eq, raw_51l_eq, raw_31i_eq, raw_22x_eq, raw_23x_eq, raw_20t_eq, raw_21t_eq, raw_10t_eq, raw_22t_eq, raw_22s_eq, raw_22b_eq, raw_30t_eq, raw_3rc_eq, raw_32x_eq, raw_20bc_eq, raw_35mi_eq, raw_35ms_eq, raw_3rmi_eq, raw_3rms_eq, raw_41c_eq, raw_40sc_eq, raw_52c_eq, raw_5rc_eq, raw_45cc_eq, raw_4rcc_eq⟩
 
-example : get_raw_22c 1 2 7 0x52 = some [0x2152, 7] := by decide
-example : get_raw_11n 3 (-1) 0x12 = some [-3310] := by decide
+example : get_raw_22c [("CCCC", 7), ("OP", 0x52), ("A", 1), ("B", 2)] = some [0x2152, 7] := by decide
+example : get_raw_11n [("OP", 0x12), ("A", 3), ("B", -1)] = some [-3310] := by decide
+example : get_raw_11n [("OP", 0x12), ("A", 3)] = none := by decide
 
 end AgVerif.PyInsn
